@@ -399,7 +399,6 @@ func runC18(c *core.Ctx) {
 	c.Assume("a producer left blocked after a policy-A consumer stops early is not asserted (the property does not promise it)")
 	c.Assume("wall-clock watchdogs are inconclusive unless a goroutine dump shows the producer blocked in a channel send")
 
-	raceGlob := filepath.Join(c.Work, "race.*")
 	c.RunPart("l3-traces", 40*time.Minute, func(c *core.Ctx) {
 		n := c.N(1000, 20000)
 		ins := c18Inputs(c, n)
@@ -586,36 +585,7 @@ func runC18(c *core.Ctx) {
 		c18CommandGoroutines(c)
 	}
 	// race reports of the child process
-	files, _ := filepath.Glob(raceGlob)
-	reports := 0
-	seen := map[string]bool{}
-	for _, f := range files {
-		b, err := os.ReadFile(f)
-		if err != nil {
-			continue
-		}
-		for _, blk := range strings.Split(string(b), "==================") {
-			if !strings.Contains(blk, "WARNING: DATA RACE") {
-				continue
-			}
-			reports++
-			key := raceKey(blk)
-			if seen[key] {
-				continue
-			}
-			seen[key] = true
-			if strings.Contains(blk, "hranoprovod-cli/v3/parser") {
-				c.Violation("race|"+key, "data race reported by the race detector in the channel parser: "+clip(blk, 600), map[string]any{"report": blk})
-			} else {
-				c.HarnessError("data race inside the harness: " + clip(blk, 800))
-			}
-		}
-	}
-	c.Count("race_reports", reports)
-	c.Count("race_log_files", len(files))
-	if !raceEnabled {
-		c.Inconclusive("race-detector", "harness was not built with -race")
-	}
+	raceReports(c, "the channel parser")
 }
 
 // c18CommandGoroutines: whatever a command of the program starts to read its files (producers of the
